@@ -26,7 +26,7 @@ def plan(ctx):
     for fn in ('int', 'abs', 'sum', 'min', 'max'):
         obs.append(Obligation(f"builtin.{fn}", "xh", "c04", "builtin_num", param={"fn": fn}, timeout=T, bounds="host ints unbounded; sum/min/max over 3 values",
                               desc=f"{fn} on host ints: result no wider than 3x the widest argument, never through float"))
-    DP = "real Decimals from a pool of 8 (+2 with huge exponents), pool indices and round() places 0..40 symbolic (finite domain)"
+    DP = "real Decimals from a pool of 8 (+2 with huge exponents) and host ints from a pool of 8 (up to 30 digits), pool indices and round() places 0..40 symbolic (finite domain)"
     for fn in ('int', 'float', 'round', 'floor', 'ceil', 'abs', 'sum', 'min', 'max'):
         obs.append(Obligation(f"digits.builtin.{fn}", "xh", "c04", "builtin_digits", param={"fn": fn}, timeout=T * 2, bounds=DP,
                               desc=f"real {fn} on real Decimals: <= max(28, widest argument + 1) significant digits; context untouched"))
